@@ -45,6 +45,9 @@ CHECKS = {
  "C26": dict(level="fault_enumeration", technique="deterministic simulation of the byte stream under bufio: seeded messages of every registered type (fields filled by reflection from the tape) through the real DAP writer/reader/decoder, complete enumeration of every single split offset and every cut offset per stream, bounded-chunk reads, seeded short-read/empty-burst/cut schedules; shrunk replayable tapes",
    text="Every generated stream is read back fault-free, with all reads bounded to 1/2/3/7 bytes, under every single split position and every cut offset (complete per stream up to the size limit), and under seeded multi-fault schedules. Decoded messages must have the written dynamic type and marshal to identical JSON; after a cut the reader must return the completely delivered messages and then an error, never a message that was not written. The constructor tables are also checked against the schema naming convention.",
    note="equality is JSON-level (encoding/json on both sides) plus dynamic type; protocol defaults pre-set by a constructor are treated as the meaning of an omitted field; streams above the limit are only covered by the seeded schedules", ref="DESIGN.md section 4 C26"),
+ "C27": dict(level="exploration", technique="deterministic simulation of Go map iteration order inside the compiler: every range-over-map on the compile path (75 sites in 49 files, AST-located, text-spliced copies injected with go build -overlay) yields its keys in an order chosen by the seeded schedule (reverse, rotate, swap, shuffle, per site or everywhere); WAT and wasm hashes compared between canonical and permuted orders, between repeats in one process and across worker processes; tape shrinking isolates the responsible range site",
+   text="Seeded search over programs of the repository's corpus, configurations and map-order schedules. Any permutation is a legal Go execution, so a hash difference between the canonical and a permuted order is a real nondeterminism of the compiler; the minimised replay names the source position of the range statement whose order reaches the output. Repeat compiles in one process and baselines across 16 processes cover state leaking between compiles and sources outside the seam. Evidence, not proof.",
+   note="only map iteration order is behind the seam; addresses, goroutines and time are covered by repeat/cross-process comparison only; pointer/interface keys get first-store serial numbers as canonical order (nonreplayable_keys probe must be 0)", ref="DESIGN.md section 4 C27"),
 }
 ORDER = ["C10","C11","C12","C13","C21","C25","C26","C27","C28"]
 m = {
